@@ -363,6 +363,41 @@ pub fn c14rows(args: &[String]) {
             seqs.extend(std::iter::repeat((0u32, 4u32, 3u32)).take(n - 1));
             cases.push(("seqcount", n, vec![Blk::Comp { lits: Lits::Raw(vec![b'q']), seqs, modes: pre() }], 1 + 3 * n as u64));
         }
+        // one sequence whose three extra-bit fields add up to 58 bits (offset code 27, literal-length code 35, match-length
+        // code 51: a match 128 MiB back), followed by a small one whose offset code shifts the bit alignment: all 8 alignments
+        let mut far: Vec<(String, Vec<u8>, Vec<u8>)> = vec![];
+        for c in 2..10u32 {
+            let mut blocks = vec![Blk::Raw((0..1000u32).map(|i| (i * 13 + 5) as u8).collect())];
+            blocks.extend((0..1024u32).map(|i| Blk::Rle((i % 251) as u8, MB)));
+            blocks.push(Blk::Comp { lits: Lits::Raw((0..65600u32).map(|i| (i * 31 + 7) as u8).collect()), seqs: vec![(65600, (1 << 27) + 1, 40000), (0, (1 << c) + 1, 3)], modes: pre() });
+            let spec = FrameSpec { name: format!("extra58_{c}"), win_desc: Some(0x88), cks: false, dict_id: None, fcs: None, blocks, dict: vec![], rep: [1, 4, 8], fcs_width: None, dict_tables: None };
+            let b = build(&spec);
+            far.push((spec.name.clone(), b.bytes, b.content));
+        }
+        for (name, bytes, content) in far {
+            let lib_ok = zstd::stream::decode_all(&bytes[..]).map(|o| o == content).unwrap_or(false);
+            if !lib_ok {
+                *counts.entry("whole_dropped".to_string()).or_insert(0) += 1;
+                continue;
+            }
+            let r = std::panic::catch_unwind(|| {
+                let mut d = ruzstd::decoding::FrameDecoder::new();
+                let mut o = Vec::with_capacity(content.len() + 16);
+                d.decode_all_to_vec(&bytes, &mut o).map(|_| o).map_err(|e| e.to_string())
+            });
+            let (acc, content_ok, err) = match r {
+                Ok(Ok(o)) => (true, o == content, String::new()),
+                Ok(Err(e)) => (false, false, e.chars().take(120).collect()),
+                Err(p) => {
+                    let m = format!("panic: {}", panic_msg(p));
+                    if panics.len() < 10 {
+                        panics.push(json!({"what": format!("whole frame {name}"), "panic": m}));
+                    }
+                    (false, false, m.chars().take(120).collect())
+                }
+            };
+            row!(w, "whole", json!({"k": "whole", "what": "extra58", "n": 105603, "regen": 105603, "stored": 70000, "api": "decode_all_to_vec", "accepted": acc, "content_ok": content_ok, "err": err}));
+        }
         for (what, n, blocks, regen) in cases {
             let stored_too_big = match &blocks[0] { Blk::Raw(d) => d.len() > MB, _ => false };
             let spec = FrameSpec { name: format!("{what}_{n}"), win_desc: Some(0x50), cks: true, dict_id: None, fcs: None, blocks, dict: vec![], rep: [1, 4, 8], fcs_width: None, dict_tables: None };
